@@ -58,6 +58,10 @@ TP_CTORS = [
     # a year before 0000 without expanded digits: its default str() raises
     {"year": -1, "month_of_year": 12, "day_of_month": 31},
     {"year": 12345, "day_of_year": 1},
+    # three expanded digits: str() registers a new dumper in the process-wide
+    # TIMEPOINT_DUMPER_MAP
+    {"year": 1234567, "num_expanded_year_digits": 3, "month_of_year": 6,
+     "day_of_month": 30, "hour_of_day": 12},
 ]
 # truncated points built directly: their zone is *unknown* (the parsers give
 # truncated points the local zone unless told to default to unknown)
